@@ -2,6 +2,10 @@
 import json
 
 NAMES = ["alpha", "beta", "g-1_x"]
+# name pools (one per generated sequence): unrelated names, names that are prefixes of one another, names that
+# contain the ARN's own vocabulary
+NAME_POOLS = [["alpha", "beta", "g-1_x"], ["al", "alpha", "alpha-2"], ["orders", "orders.eu", "orders-v2"],
+              ["execution", "re-execution_1", "stateMachine"], ["a", "ab", "abc"], ["m", "m-m", "M"]]
 BAD_NAMES = ["", "bad name", "x" * 81, "semi;colon", "sl/ash", "col:on", "qu?estion", 5]
 ROLES = ["arn:aws:iam::0123456789:role/service-role/R1", "arn:aws:iam::0123456789:role/R2"]
 BAD_ROLES = ["", "arn:aws:iam::abc:role/x", "role/R1", 12]
@@ -36,6 +40,7 @@ BAD_EX_ARNS = ["", "arn:aws:states:local:0123456789:stateMachine:alpha", "junk",
 
 def gen_ops(rng, n, front_end="asyncio", p_invalid=0.3, typed=True, bodies=True):
     """Returns list of ops: {"action":..., "params": {...}} or {"action":..., "raw": "<body text>"}."""
+    NAMES = rng.choice(NAME_POOLS)
     ops = []
     started = []     # (sm name, exec name) the generator issued (may or may not have succeeded)
     counter = [0]
